@@ -218,7 +218,7 @@ class TreeGen:
             # a fresh operand with many keys that are not stored in the target: the whole-row linear_combine
             # then counts enough missing keys to take its bulk-copy branch (CO_Tree iterator constructor)
             self.new(s, self.size[reg])
-            cnt = r.randint(max(1, self.size[reg] // 8), max(2, min(self.size[reg] // 2, self.maxn)))
+            cnt = r.randint(max(1, min(self.size[reg] // 8, 150)), max(2, min(self.size[reg] // 2, self.maxn, 400)))
             for k in r.sample(range(self.size[reg]), min(cnt, self.size[reg])):
                 self.emit("ins", s, k, self.val() or 1)
                 self.keys[s].add(k)
